@@ -83,6 +83,27 @@ instance : Truthy DateTime := ⟨fun _ => true⟩
 def timeOf (p : TinyFlux.Spec.Point) : DateTime := ⟨p.time⟩
 def timestamp (t : DateTime) : Int := t.us
 
+/-! ## query objects, as far as the index uses them
+
+`Index._search_measurement/_tags/_fields` use two attributes of a `SimpleQuery`: `_path_resolver`, called inside
+`try … except Exception: continue` on a measurement name or on a one-entry dict `{key: value}`, and `_test`,
+called unprotected on what the resolver returned. -/
+inductive PathArg
+  | meas (s : String)
+  | tag (k : String) (v : Option String)
+  | field (k : String) (v : Option TinyFlux.Spec.Num)
+class ToArg (α : Type) where toArg : α → PathArg
+export ToArg (toArg)
+instance : ToArg String := ⟨.meas⟩
+class EntryArg (ν : Type) where entryArg : String → ν → PathArg
+export EntryArg (entryArg)
+instance : EntryArg (Option String) := ⟨.tag⟩
+instance : EntryArg (Option TinyFlux.Spec.Num) := ⟨.field⟩
+
+structure SimpleQuery where
+  _path_resolver : PathArg → Except Unit TinyFlux.Spec.PyV   -- any exception of the resolver is caught by the caller
+  _test : TinyFlux.Spec.PyV → M Bool
+
 /-! ## tuples -/
 def item0 {α β} (p : α × β) : α := p.1
 def item1 {α β} (p : α × β) : β := p.2
